@@ -81,7 +81,7 @@ EXTRA_TECH = {
  "C07": "; concat lowering paths (c07_concat.py); column selections absorbed by 22 source variants (c07_sources.py), node-by-node declared vs computed schema",
  "C08": "; histories of queries sharing argument objects vs a fresh interpreter (c08_alias.py)",
  "C09": "; repartition layers on explicit uneven layouts (c09_repartition.py); groupby plans (c09_groupby.py) with deep planner-object scan and cloudpickle under the no-serialize guard",
- "C10": "; sorting under the execution knobs (c10_sorts.py); count / distinct reductions with NA-handling options under every knob setting (c10_counts.py)",
+ "C10": "; sorts for every choice of divisions (SetIndex.v: sort_partitions_ordered, sort_desc_partitions_ordered; T-LAYER setindex_layer function_layer / sort_order_layer); sorting under the execution knobs (c10_sorts.py); count / distinct reductions with NA-handling options under every knob setting (c10_counts.py)",
  "C11": "; head / tail of sorted frames as tree reductions over 1-70 partitions (c11_sorted.py); Select.v lowering theorems for head / tail with T-LAYER select_layer (shape of the lowered expression and rows vs the extracted model)",
  "C12": "; joins as consumers of co-location (c12_joins.py) and the contract sweep of the splitting functions",
  "C13": "; repartitioning of derived collections (c13_hist.py)",
